@@ -522,8 +522,18 @@ class Canon:
 
     OPAQUE = object()
 
-    def __init__(self, fn, depth=12):
+    def __init__(self, fn, depth=12, assume=None):
+        """assume: atom text -> bool.  Definitions and paths that lie behind a branch edge contradicting the assumption are
+        ignored (guard-correlated closed forms: `if f: s = A else: s = B ... if f: use(s)`)."""
+        from .cfg import implied
         self.fn, self.g, self.depth = fn, fn.cfg, depth
+        self.assume = dict(assume or {})
+        self.infeasible = set()
+        self.contra = []
+        if self.assume:
+            self.contra = [(s, d) for s, d, test, pol in self.g.branch_edges()
+                           if any(at.text in self.assume and self.assume[at.text] != p for at, p in implied(test, pol))]
+            self.infeasible = set(self.g.stmt) - self.g.reachable(0, skip_edges=self.contra)
         self.sites = {}     # name -> [(cfg node, value expr | OPAQUE, sel)]
         for n, st in self.g.stmt.items():
             if st is None:
@@ -534,7 +544,12 @@ class Canon:
             elif isinstance(st, ast.AnnAssign) and st.value is not None:
                 self._bind(st.target, n, st.value)
             elif isinstance(st, ast.AugAssign):
-                self._opaque(st.target, n)
+                if isinstance(st.target, ast.Name):
+                    # x += v  ==  x = x + v  (the x on the right is the definition reaching this statement)
+                    v = ast.copy_location(ast.BinOp(left=ast.Name(id=st.target.id, ctx=ast.Load()), op=st.op, right=st.value), st)
+                    self.sites.setdefault(st.target.id, []).append((n, v, None))
+                else:
+                    self._opaque(st.target, n)
             elif isinstance(st, (ast.For, ast.AsyncFor)):
                 self._opaque(st.target, n)
             elif isinstance(st, (ast.With, ast.AsyncWith)):
@@ -564,15 +579,15 @@ class Canon:
 
     def reaching(self, name, n):
         """definitions of `name` that reach CFG node n -> list of sites; includes None if the function entry reaches n undefined"""
-        sites = self.sites.get(name, [])
+        sites = [s for s in self.sites.get(name, []) if s[0] not in self.infeasible]
         if not sites:
             return [None]
         nodes = {s[0] for s in sites}
         out = []
         for s in sites:
-            if self.g.reaches_avoiding(s[0], n, avoid=nodes - {s[0]}):
+            if self.g.reaches_avoiding(s[0], n, avoid=(nodes - {s[0]}) | (self.infeasible - {n}), skip_edges=self.contra):
                 out.append(s)
-        if n == 0 or self.g.reaches_avoiding(0, n, avoid=nodes) or (0 in self.g.succ and n in self.g.succ[0] and n not in nodes):
+        if n == 0 or self.g.reaches_avoiding(0, n, avoid=nodes | (self.infeasible - {n}), skip_edges=self.contra) or (0 in self.g.succ and n in self.g.succ[0] and n not in nodes):
             out.append(None)
         return out
 
@@ -626,7 +641,7 @@ class Canon:
                 return sub
             if isinstance(sub, (ast.Tuple, ast.List)) and sel < len(sub.elts) and not any(isinstance(x, ast.Starred) for x in sub.elts):
                 return sub.elts[sel]
-            return ast.Subscript(value=sub, slice=ast.Constant(value=sel), ctx=ast.Load())
+            return self._fold(ast.Subscript(value=sub, slice=ast.Constant(value=sel), ctx=ast.Load()))
         if isinstance(e, (ast.ListComp, ast.SetComp, ast.GeneratorExp, ast.DictComp)):
             b = set(bound)
             for gen in e.generators:
@@ -658,8 +673,23 @@ class Canon:
                 setattr(new, fld, [self._sub(v, at, depth, bound) if isinstance(v, (ast.expr, ast.keyword)) else v for v in val])
             elif isinstance(val, ast.keyword):
                 setattr(new, fld, self._sub(val, at, depth, bound))
+        return self._fold(new)
+
+    @staticmethod
+    def _fold(new):
         if isinstance(new, ast.Subscript) and isinstance(new.value, (ast.Tuple, ast.List)) and isinstance(new.slice, ast.Constant) and \
                 isinstance(new.slice.value, int) and -len(new.value.elts) <= new.slice.value < len(new.value.elts) and \
                 not any(isinstance(x, ast.Starred) for x in new.value.elts):
             return new.value.elts[new.slice.value]
+        if isinstance(new, ast.Subscript) and isinstance(new.slice, ast.Constant) and isinstance(new.slice.value, int) and new.slice.value >= 0 and \
+                isinstance(new.value, ast.Subscript) and isinstance(new.value.slice, ast.Slice) and new.value.slice.step is None:
+            lo = new.value.slice.lower
+            lov = 0 if lo is None else lo.value if isinstance(lo, ast.Constant) and isinstance(lo.value, int) else None
+            if lov is not None and lov >= 0:      # v[lo:hi][i] == v[lo + i] (within the slice)
+                return ast.Subscript(value=new.value.value, slice=ast.Constant(value=lov + new.slice.value), ctx=ast.Load())
+        if isinstance(new, ast.BinOp) and isinstance(new.op, ast.Add) and isinstance(new.left, ast.Tuple) and isinstance(new.right, ast.Tuple):
+            return ast.Tuple(elts=list(new.left.elts) + list(new.right.elts), ctx=ast.Load())
+        if isinstance(new, ast.BinOp) and isinstance(new.op, ast.Add) and isinstance(new.left, ast.Constant) and isinstance(new.right, ast.Constant) \
+                and isinstance(new.left.value, str) and isinstance(new.right.value, str):
+            return ast.Constant(value=new.left.value + new.right.value)
         return new
